@@ -528,3 +528,8 @@ def check(prog: Program, rep):
     naming_rule(prog, rep, "C11.R3")
     rep.rule("C11.R4", "operand types of `+`", floor=1)
     operand_types(prog, rep, "C11.R4")
+    rep.rule("C11.R5", "the searches over k of the node-capable wrappers are bounded by the size of the *model* graph (the expanded one in node mode), as in edge mode", floor=4)
+    from rules.search import range_rule
+    from rules.common import RuleProxy
+    for w_ in ("MinFlowDecomp", "MinFlowDecompCycles", "MinPathCover", "MinPathCoverCycles"):
+        range_rule(prog, RuleProxy(rep, "C11.R5"), "C03.R2", w_, "solve")
